@@ -232,6 +232,22 @@ FAMILIES = [
       ("S", ["Extra", '"<="', '"z"'], "normal", "N"),
       ("Old", ["Bound", '"<"', '"="'], "normal", "N"), ("New", ["Bound", '"<="'], "normal", "N"),
       ("Bound", ['"x"'], "normal", "N"), ("Desc", ['"x"'], "normal", "N"), ("Extra", ['"x"'], "normal", "N")]),
+    # 14: a body of eleven symbols in production 1 and more than eleven productions: the items (production 1, dot 10) and
+    # (production 11, dot 0) sit in the same state with the same look-ahead (keys built from the two numbers without separator collide);
+    # conflict-free
+    (["S", "F", "Tr", "Ex"], ["a", "b", "c", "d", "e", '"+"', '"*"', '"("', '")"', '";"', '"x"', "id"],
+     [("S", ["a", "b", "c", "d", "e", '"+"', '"*"', '"("', '")"', '";"', "Tr"], "normal", "N"),
+      ("S", ["id", "F"], "normal", "N"), ("F", ["a"], "normal", "N"), ("F", ["b"], "normal", "N"), ("F", ["c"], "normal", "N"),
+      ("F", ["d"], "normal", "N"), ("F", ["e"], "normal", "N"), ("F", ['"+"'], "normal", "N"), ("F", ['"*"'], "normal", "N"),
+      ("F", ['"("'], "normal", "N"),
+      ("Tr", [], "empty", None), ("Tr", ["Ex"], "normal", "N"), ("Ex", ['"x"'], "normal", "N")]),
+    # 15: the same with a reduce/reduce conflict between productions 11 and 13 on end of input
+    (["S", "F", "Tr", "Ex"], ["a", "b", "c", "d", "e", '"+"', '"*"', '"("', '")"', '";"', "id"],
+     [("S", ["a", "b", "c", "d", "e", '"+"', '"*"', '"("', '")"', '";"', "Tr"], "normal", "N"),
+      ("S", ["id", "F"], "normal", "N"), ("F", ["a"], "normal", "N"), ("F", ["b"], "normal", "N"), ("F", ["c"], "normal", "N"),
+      ("F", ["d"], "normal", "N"), ("F", ["e"], "normal", "N"), ("F", ['"+"'], "normal", "N"), ("F", ['"*"'], "normal", "N"),
+      ("F", ['"("'], "normal", "N"),
+      ("Tr", [], "empty", None), ("Tr", ["Ex"], "normal", "N"), ("Ex", [], "empty", None)]),
 ]
 
 
